@@ -6,6 +6,9 @@ import (
 	"sync"
 
 	"aead.dev/minisign"
+	"github.com/ProtonMail/gopenpgp/v2/armor"
+	"github.com/ProtonMail/gopenpgp/v2/crypto"
+	"github.com/ProtonMail/gopenpgp/v2/helper"
 	"github.com/pojntfx/stfs/pkg/config"
 	"github.com/pojntfx/stfs/pkg/keys"
 	"github.com/pojntfx/stfs/pkg/utility"
@@ -14,6 +17,7 @@ import (
 // KeySet holds parsed key material for one "owner". Two owners exist per process: "own" and "foreign".
 type KeySet struct {
 	mu   sync.Mutex
+	rsa  bool // OpenPGP keys are RSA-2048 (what gpg made by default for many years) instead of the x25519 keys of `stfs keygen`
 	encR map[string]interface{} // encryption recipient (public)
 	encI map[string]interface{} // encryption identity (private)
 	sigR map[string]interface{} // signature recipient (public)
@@ -38,6 +42,9 @@ func (k *KeySet) ensureEnc(format string) error {
 		pw = "" // age + password goes through scrypt (seconds); C18 covers that path on purpose
 	}
 	priv, pub, err := utility.Keygen(config.PipeConfig{Encryption: format}, config.PasswordConfig{Password: pw})
+	if k.rsa && format == config.EncryptionFormatPGPKey {
+		priv, pub, err = rsaKeyPair(pw)
+	}
 	if err != nil {
 		return fmt.Errorf("keygen enc %s: %w", format, err)
 	}
@@ -102,3 +109,25 @@ func (k *KeySet) Crypto(enc, sig string) (read config.CryptoConfig, write config
 
 var ownKeys = NewKeySet()
 var foreignKeys = NewKeySet()
+var rsaKeys = &KeySet{rsa: true, encR: map[string]interface{}{}, encI: map[string]interface{}{}, sigR: map[string]interface{}{}, sigI: map[string]interface{}{}}
+
+// rsaKeyPair makes an OpenPGP key with an RSA encryption subkey, in the form utility.Keygen returns (binary private key, binary public key).
+func rsaKeyPair(pw string) (priv, pub []byte, err error) {
+	armored, err := helper.GenerateKey("STFS", "stfs@example.com", []byte(pw), "rsa", 2048)
+	if err != nil {
+		return nil, nil, err
+	}
+	raw, err := armor.Unarmor(armored)
+	if err != nil {
+		return nil, nil, err
+	}
+	k, err := crypto.NewKey(raw)
+	if err != nil {
+		return nil, nil, err
+	}
+	if pub, err = k.GetPublicKey(); err != nil {
+		return nil, nil, err
+	}
+	priv, err = k.Serialize()
+	return priv, pub, err
+}
